@@ -108,7 +108,8 @@ def main(argv=None):
                 st = part.custom(args.tier)
             else:
                 bound = part.bound[args.tier]
-                budget = part.budget[args.tier]
+                # VERIF_BUDGET_SCALE (default 1) shortens every time cap, for a smoke run of a tier's code paths; a cap that is hit is reported (NOTE, exhaustive=false)
+                budget = part.budget[args.tier] * float(os.environ.get("VERIF_BUDGET_SCALE", "1") or 1)
                 below = None
                 if bound >= 2 and args.tier == "thorough":
                     # iterate the deviation bound: everything with fewer deviations is explored completely first, so that a time cap
